@@ -408,6 +408,9 @@ def a_segment(me, d):
     if ei.shape[0] and ei[0, 0] >= ri[-1, 1]:
         c.verdict, c.why = UNSPEC, "estimate lies wholly after the reference"
         return c
+    if ri[-1, 1] < 1.0:
+        c.verdict, c.why = UNSPEC, "reference shorter than ten default analysis frames"
+        return c
     if ri[0, 0] != 0.0:
         # a reference that does not start at 0: evaluate() pads it; documented only for the estimate
         c.verdict, c.why = UNSPEC, "reference does not start at 0"
@@ -533,6 +536,9 @@ def a_hier(me, d):
         return c
     if eiv[0][0, 0] >= riv[0][-1, 1]:
         c.verdict = UNSPEC
+        return c
+    if riv[0][-1, 1] < 10 * fs or eiv[0][-1, 1] < 10 * fs:
+        c.verdict, c.why = UNSPEC, "annotation shorter than ten analysis frames (frame-sampled metrics undefined on a handful of frames)"
         return c
     c.verdict = VALID
     c.must_return = [ev]
